@@ -1485,6 +1485,9 @@ class Driver:
 # =====================================================================================================================
 # part (a): program generator (by concrete execution)
 # =====================================================================================================================
+# opsets of a trace: mostly the current ones; older ones (operator signatures and type variables differ: Pow, ReduceSum, Squeeze, Split, Clip ...)
+# often enough that one worker process builds the same operator under several opsets, older and newer in both orders
+OPSETS = [18, 19, 20, 21, 21, 22, 23, 15, 17]
 F_POOL = [-3.0, -2.0, -1.5, -1.0, -0.5, 0.0, 0.25, 0.5, 1.0, 1.5, 2.0, 3.0, 4.0]
 I_POOL = [-3, -2, -1, 0, 1, 2, 3, 4, 5]
 SHAPES = [(), (1,), (2,), (3,), (4,), (2, 3), (3, 2), (1, 3), (2, 2), (3, 1), (2, 1, 3), (2, 3, 2), (1, 2, 2), (5,), (2, 5)]
@@ -1510,7 +1513,7 @@ class TraceGen:
         self.draw, self.ex, self.note = draw, set(exclude), note
         self.nid = 0
         self.uid = 0
-        self.opset = draw(st.sampled_from([18, 19, 20, 21, 21, 22, 23]))
+        self.opset = draw(st.sampled_from([int(x) for x in os.environ["VERIF_C18_OPSETS"].split(",")] if os.environ.get("VERIF_C18_OPSETS") else OPSETS))
         self.prog = {"opset": self.opset, "inputs": [], "funcs": [], "steps": [], "outputs": [], "out_via": draw(st.sampled_from(["add_output", "add_output", "append"]))}
         self.interp = Interp(self.prog)
         self.env = {}
@@ -1643,6 +1646,17 @@ class TraceGen:
 
     # ---- emitting
     def emit(self, s):
+        if s.get("k") == "op" and not s.get("dom") and self.opset < 18:
+            # old-opset traces: only operators that exist at that opset; Softmax-family semantics before opset 13 (2-D coercion) are
+            # not what the replay kernels implement
+            try:
+                sch = onnx.defs.get_schema(s["op"], self.opset, "")
+            except Exception:  # noqa: BLE001
+                self.dropped += 1
+                return False
+            if sch.deprecated or (self.opset < 13 and s["op"] in ("Softmax", "LogSoftmax", "Hardmax")):
+                self.dropped += 1
+                return False
         try:
             self.interp.step(s, self.env, self.fmode["values"] if self.fmode else None)
         except ReplayError:
@@ -2472,6 +2486,10 @@ class TraceGen:
     # ---- functions
     def define_function(self, args):
         kind = self.d(st.sampled_from(["script", "script", "script_opb", "built", "built"]))
+        if self.opset < 15:
+            # literals next to untyped values are typed with CastLike, in @script bodies and in built functions with untyped parameters
+            # alike; CastLike does not exist below opset 15 (recorded under C13): old-opset traces call no functions
+            return None
         idx = len(self.prog["funcs"])
         f = {"name": f"fn{idx}", "domain": f"fdom{idx}" if kind != "script_opb" else "this", "kind": kind, "attrs": [], "params": [], "body": [], "ret": []}
         if kind == "built":
@@ -2746,7 +2764,45 @@ def check_trace(case, want_info=False):
         d = compare.same_outputs(results["drawn"][1], results["flipped"][1], rel=2e-5, abs_=2e-6 * max(scale, 1.0))
         if d:
             verdicts.append(("call!=call_inline", d))
+    verdicts += _opset_history(prog, arrays, exclude, interp, info)
     return _dedup(verdicts), info
+
+
+def _opset_history(prog, arrays, exclude, interp, info):
+    """Metamorphic step over builder histories: the same trace is built, then built under OLDER opsets (operator signatures and type
+    variables differ there: Pow, ReduceSum, Squeeze, Split, Clip ...; whatever those builds do, including raising, is ignored), then built
+    again - the first and the last model must be byte-equal: what a builder emits for a trace does not depend on which opsets the
+    process has built before."""
+    import copy
+
+    def build(p):
+        drv = Driver(p, arrays, exclude, flip=False)
+        drv.frec = interp.frec
+        return drv.build().SerializeToString(deterministic=True)
+
+    try:
+        first = build(copy.deepcopy(prog))
+    except Exception:  # noqa: BLE001  (already judged above)
+        return []
+    for old in (11, 12, 13):
+        q = copy.deepcopy(prog)
+        q["opset"] = old
+        try:
+            build(q)
+        except BaseException as e:  # noqa: BLE001
+            if isinstance(e, (KeyboardInterrupt, SystemExit)) or type(e).__name__ == "CaseTimeout":
+                raise
+    try:
+        last = build(copy.deepcopy(prog))
+    except Exception as e:  # noqa: BLE001
+        return [("history:older_opset_builds:raise", f"{type(e).__name__}: {str(e)[:200]}")]
+    info["classes"].append("history:older_opsets_in_between")
+    if first != last:
+        a, b = onnx.ModelProto.FromString(first), onnx.ModelProto.FromString(last)
+        diff = next((f"node {i}: {onnx.printer.to_text(x)[:150]} -> {onnx.printer.to_text(y)[:150]}" for i, (x, y) in enumerate(zip(a.graph.node, b.graph.node)) if x != y),
+                    f"{len(a.graph.node)} vs {len(b.graph.node)} nodes / initializers differ")
+        return [("history:older_opset_builds:different_model", diff)]
+    return []
 
 
 def _any_inline(prog, flip):
